@@ -192,13 +192,14 @@ PROPERTIES = {
              'runtime libraries (libsam.wat, TS prolog) and Vec are not covered',
   },
   'C06': {
-    'verus': ['litgate', 'errgate'],
+    'verus': ['litgate', 'errgate', 'checkgates'],
     'kani': [],
     'level': 'proof',
     'scope': 'two kernels only: an integer literal outside the 32-bit range is reported (TokenProducer::process_raw_token); an error '
              'once reported stays in the ErrorSet (report_error, merge), has_errors sees it, and compile_sources returns Err before '
-             'any code is produced; every checker-side clause of C06 (types, arity, resolution, visibility, conformance, '
-             'exhaustiveness: that the error IS reported) is not covered',
+             'any code is produced; two checker gates: a type argument that violates its parameter\'s bound is reported, a failed '
+             'assignability test is reported (the tests themselves are opaque); every other checker-side clause of C06 (arity, '
+             'resolution, visibility, conformance, exhaustiveness: that the error IS reported) is not covered',
   },
   'C08': {
     'verus': ['paren', 'strlit', 'ifchain', 'lexer'],
@@ -275,6 +276,8 @@ STANDING_ASSUMPTIONS = {
                'WebAssembly text string literals (spec 6.3.3) and loader.js (one UTF-16 code unit per byte) are modelled by spec functions; '
                'UTF-8 of ASCII text = its codes (axiom); u8::is_ascii_alphanumeric by its documented definition; i.to_string() opaque (R3); '
                'the loops around the two R14 blocks (enumerate) and the printing of offset / length are outside the blocks'],
+  'checkgates': ['Verus/Z3; the tests themselves (TypingContext::is_subtype, type_system::assignability_check, is_the_same_type, '
+                 'subst_nominal_type) are opaque: only "a failed test is reported" is proved; ErrorSet reduced to its error count'],
   'errgate': ['Verus/Z3; vstd specification of std BTreeSet (new / insert / is_empty); the derived Ord of CompileTimeError is assumed to '
               'be a total order (obeys_cmp); BTreeSet::extend = union (R3); Location, ErrorDetail opaque; everything compile_sources does '
               'around the gate is outside the block (R14)'],
